@@ -36,7 +36,46 @@ def chain_of(b, defs, local, depth=14):
     return names
 
 
-def truth_table(ctx, report, cb, rule, expect, what):
+def capture_values(b, defs, cb, question):
+    """what the filter closure captured, by provenance in build_reply: the question itself (a reference to a Question) or one
+    of its fields copied out beforehand (e.g. passed by value to a helper that has been inlined back)"""
+    agg = None
+    for bl in b.blocks:
+        for s1 in bl["stmts"]:
+            if s1["s"] == "assign" and s1["rv"]["k"] == "agg" and s1["rv"].get("ak") == "closure" and s1["rv"].get("def") == cb.id:
+                agg = s1["rv"]
+    if agg is None:
+        return (question,)
+    out = []
+    for op in agg["ops"]:
+        val = None
+        cur = op
+        for _ in range(10):
+            if cur.get("o") not in ("copy", "move"):
+                break
+            pl = cur["pl"]
+            fs = [p["n"] for p in pl["p"] if isinstance(p, dict) and "f" in p and p.get("n")]
+            if fs and fs[-1] in question:
+                val = Opaque("question." + fs[-1]) if not isinstance(question[fs[-1]], int) else question[fs[-1]]
+                break
+            if "Question" in b.ty(pl["t"])["s"] and not fs:
+                val = question
+                break
+            d = mu.single_def(defs, pl["l"])
+            if d is None or d[1] == "term":
+                break
+            rv = d[2]
+            if rv.get("k") == "use":
+                cur = rv["op"]
+            elif rv.get("k") == "ref":
+                cur = {"o": "copy", "pl": rv["pl"]}
+            else:
+                break
+        out.append(val if val is not None else Opaque("capture"))
+    return tuple(out)
+
+
+def truth_table(ctx, report, cb, rule, expect, what, host=None, hdefs=None):
     """evaluate a filter closure as a decision table over the outcomes of match_qclass / match_qtype"""
     prog = ctx.prog
     bad = []
@@ -55,7 +94,8 @@ def truth_table(ctx, report, cb, rule, expect, what):
         hooks = {("call", "simple_dns::ResourceRecord::<'a>::match_qtype"): mq, ("call", "simple_dns::ResourceRecord::<'a>::match_qclass"): mc}
         ev = Evaluator(prog, hooks)
         question = {"qclass": Opaque("question.qclass"), "qtype": Opaque("question.qtype"), "qname": Opaque("qname"), "unicast_response": 0}
-        r = ev.call(cb, [("closure", cb.id, (question,)), {"rdata": Opaque("r")}])
+        caps = capture_values(host, hdefs, cb, question) if host is not None else (question,)
+        r = ev.call(cb, [("closure", cb.id, caps), {"rdata": Opaque("r")}])
         want = expect(qc, qa, qaaaa, qother)
         report.count()
         if r != want:
@@ -79,18 +119,27 @@ def run(ctx):
     gk = ctx.must_find(report, "simple_mdns::resource_record_manager::get_key")
     if b is None or gk is None:
         return report.finish()
-    c0 = prog.bodies.get(b.id + "::{closure#0}")
-    c1 = prog.bodies.get(b.id + "::{closure#1}")
-    if c0 is None or c1 is None:
-        report.lost_anchor("the two filter closures of build_reply")
-        return report.finish()
     defs = mu.defs_of(b)
+    # the two filter closures by role: the one whose output is cloned into reply.additional_records (through extend) and the other
+    # one (answers); a helper extracted around either has been inlined back by the fact loader
+    filt_all = [t for bi, t in mu.calls(b, r"^std::iter::Iterator::filter$")]
+    ext_all = mu.calls(b, r"HashSet<T, S, A> as std::iter::Extend<T>>::extend$")
+    c0 = c1 = None
+    if len(filt_all) == 2 and len(ext_all) == 1:
+        in_ext = [t for n, t in chain_of(b, defs, mu.op_local(ext_all[0][1]["args"][1])) if t is not None and t["callee"]["def"] == "std::iter::Iterator::filter"]
+        if len(in_ext) == 1:
+            c1 = prog.bodies.get(_closure_arg(b, defs, in_ext[0]) or "")
+            rest = [t for t in filt_all if t is not in_ext[0]]
+            c0 = prog.bodies.get(_closure_arg(b, defs, rest[0]) or "")
+    if c0 is None or c1 is None:
+        report.lost_anchor("the two filter closures of build_reply (answers / additional records)")
+        return report.finish()
     try:
-        ok0, a0 = truth_table(ctx, report, c0, "C13-R1", lambda qc, qa, qaaaa, qo: int(qc and qo), "the answer filter")
+        ok0, a0 = truth_table(ctx, report, c0, "C13-R1", lambda qc, qa, qaaaa, qo: int(qc and qo), "the answer filter", b, defs)
         if ok0 and (a0["class"] != {"<opaque question.qclass>"} or a0["type"] != {"<opaque question.qtype>"}):
             viol(report, "C13-R1", c0, "filter-args", "the answer filter matches against %s / %s instead of the question's class and type" % (
                 sorted(a0["class"]), sorted(a0["type"])))
-        ok1, a1 = truth_table(ctx, report, c1, "C13-R2", lambda qc, qa, qaaaa, qo: int((qa or qaaaa) and qc), "the additional-record filter")
+        ok1, a1 = truth_table(ctx, report, c1, "C13-R2", lambda qc, qa, qaaaa, qo: int((qa or qaaaa) and qc), "the additional-record filter", b, defs)
         if ok1 and a1["class"] != {"<opaque question.qclass>"}:
             viol(report, "C13-R2", c1, "filter-args", "the additional-record filter matches the class against %s instead of the question's class" % sorted(a1["class"]))
         report.sample({"closure": c0.qname, "decision_table": "true iff match_qclass(question.qclass) and match_qtype(question.qtype)"})
@@ -155,17 +204,22 @@ def run(ctx):
         report.nontriv("reply id")
     else:
         viol(report, "C13-R3", b, "reply-id", "the reply is not Packet::new_reply(<id of the query packet>)")
-    names = {n: l for l, n in b.local_names().items()}
-    ul = names.get("unicast_response")
+    # the flag by role: the bool that is returned next to the reply packet
+    ul = None
+    for bi0, si0, s0 in [(bi0, si0, s0) for bi0, bl0 in enumerate(b.blocks) if not bl0["cleanup"] for si0, s0 in enumerate(bl0["stmts"])]:
+        if s0["s"] == "assign" and s0["rv"]["k"] == "agg" and s0["rv"].get("ak") == "tuple" and len(s0["rv"]["ops"]) == 2 and \
+                b.ty(s0["pl"]["t"])["s"].endswith("bool)"):
+            ul = mu.origin_local(b, defs, mu.op_local(s0["rv"]["ops"][1]))
     report.count()
     if ul is None:
-        report.lost_anchor("local unicast_response of build_reply")
+        report.lost_anchor("the unicast flag returned by build_reply")
     else:
         asg = defs.get(ul, [])
-        consts = [d for d in asg if d[1] != "term" and d[2]["k"] == "use" and d[2]["op"]["o"] == "const"]
+        consts = [d for d in asg if d[1] != "term" and d[2]["k"] == "use" and d[2]["op"]["o"] == "const" and
+                  d[2]["op"]["k"].get("c") == "int" and int(d[2]["op"]["k"]["v"]) == 0]
         others = [d for d in asg if d not in consts]
         dom = mu.dominators(b)
-        good = len(consts) == 1 and int(consts[0][2]["op"]["k"]["v"]) == 0 and len(others) >= 1
+        good = len(consts) == 1 and len(others) >= 1
         def reads_flag(op):
             if op["o"] not in ("copy", "move"):
                 return False
@@ -176,7 +230,8 @@ def run(ctx):
             return dd is not None and dd[1] != "term" and dd[2]["k"] == "use" and reads_flag(dd[2]["op"])
         for d in others:
             rv = d[2]
-            src_ok = d[1] != "term" and rv["k"] == "use" and reads_flag(rv["op"])
+            src_ok = d[1] != "term" and rv["k"] == "use" and (reads_flag(rv["op"]) or (
+                rv["op"]["o"] == "const" and rv["op"]["k"].get("c") == "int" and int(rv["op"]["k"]["v"]) == 1))
             guarded = False
             for bi2, bl2 in enumerate(b.blocks):
                 t2 = bl2["term"]
@@ -212,21 +267,18 @@ def run(ctx):
     else:
         viol(report, "C13-R3", b, "none-iff-empty", "None is not returned exactly when reply.answers is empty")
     # ---- R4 key boundaries
-    gc = prog.bodies.get(gk.id + "::{closure#0}")
+    # labels are arbitrary bytes, so only a length prefix makes the per-label encoding prefix-free (a leading or trailing
+    # separator byte does not: `.com._tcp._res1` is a byte prefix of `.com._tcp._res10`): some byte emitted per label
+    # (once / push / insert, in get_key or a closure of it) must be computed from len() of the label's bytes
     report.count()
-    if gc is None:
-        report.lost_anchor("per-label closure of get_key")
-    else:
-        rt = gc.local_ty(0)["s"]
-        # labels are arbitrary bytes, so only a length prefix makes the per-label encoding prefix-free (a leading or
-        # trailing separator byte does not: `.com._tcp._res1` is a byte prefix of `.com._tcp._res10`): some byte emitted
-        # by the closure (once / push / array element) must be computed from len() of the label's bytes
+    gfam = [gk] + [x for x in prog.bodies.values() if x.kind == "Closure" and x.root == gk.id]
+    delim = False
+    n_emit = 0
+    for gc in gfam:
         gdefs = mu.defs_of(gc)
-        emitters = mu.calls(gc, r"^std::iter::once$|Vec::<T, A>::(push|insert)$")
-        delim = False
-        for _, et in emitters:
-            arg = et["args"][-1]
-            cur = mu.op_local(arg)
+        for _, et in mu.calls(gc, r"^std::iter::once$|Vec::<T, A>::(push|insert)$"):
+            n_emit += 1
+            cur = mu.op_local(et["args"][-1])
             for _ in range(6):
                 d = mu.single_def(gdefs, cur) if cur is not None else None
                 if d is None:
@@ -241,13 +293,14 @@ def run(ctx):
                     cur = mu.op_local(rv["op"])
                 else:
                     break
-        if delim:
-            report.nontriv("key boundaries")
-            report.sample({"fn": gk.qname, "per_label_bytes": rt})
-        else:
-            viol(report, "C13-R4", gk, "key-boundaries", "the per-label part of the trie key (%s) carries no length prefix: names that split "
-                 "the same characters differently (printer.office.local / officeprinter.local) or whose first label extends another's "
-                 "(_res1 / _res10 with a separator byte) share a key or a key prefix, so label-wise matching is impossible" % rt)
+    if delim:
+        report.nontriv("key boundaries")
+        report.sample({"fn": gk.qname, "per_label": "length byte + label bytes"})
+    else:
+        viol(report, "C13-R4", gk, "key-boundaries", "the per-label part of the trie key carries no length prefix (%d single-byte emitters, none "
+             "computed from a len()): names that split the same characters differently (printer.office.local / officeprinter.local) "
+             "or whose first label extends another's (_res1 / _res10 with a separator byte) share a key or a key prefix, so "
+             "label-wise matching is impossible" % n_emit)
     # ---- R5 a registered record is stored as Authoritative whatever was cached for it before
     aa = prog.find("simple_mdns::ResourceRecordManager::add_authoritative_resource")
     report.count()
